@@ -164,6 +164,32 @@ func propSpecs() map[string]*PropSpec {
 		Stubs:   []string{"nothing stubbed: real Scan, Parse, Compile on symbolic bytes"},
 		Assume:  []string{"two independent SQL lexers (harness/h/sqllex.go); ClickHouse backslash-escape rules as transcribed there"},
 	})
+	c01 := func(all bool) []RunSpec {
+		var r []RunSpec
+		for sh := int64(0); sh < 46; sh++ {
+			r = append(r, rs("H_C01", sh, 0))
+		}
+		small := map[int64]bool{0: true, 4: true, 6: true, 9: true, 10: true, 13: true, 17: true, 20: true, 23: true, 26: true, 32: true, 36: true, 40: true}
+		for pos := int64(1); pos < 12; pos++ {
+			for sh := int64(0); sh < 46; sh++ {
+				if all || small[sh] {
+					r = append(r, rs("H_C01", sh, pos))
+				}
+			}
+		}
+		return r
+	}
+	add(&PropSpec{
+		ID: "C01", Title: "scalar expressions keep their meaning when translated to SQL", OwnsPanic: true,
+		Quick:    c01(false),
+		Thorough: c01(true),
+		Covers:   []string{"compiled", "meaning-checked", "null-free-checked"},
+		Bounds: map[string]string{"quick": "46 expression shapes (ladders of <= 3 binary operators, every parenthesis placement, signs, indexing, in-lists, each built-in as operand and with operator arguments, pass-through calls of arity 0-3, qualified names, constants) with every binary operator slot arbitrary over the 15 operators, in the where position; 13 of the shapes in all 12 expression positions (project, extend named/unnamed, summarize aggregate and key, sort, take, top key and count, join on, let)",
+			"thorough": "all 46 shapes in all 12 positions"},
+		Outside: []string{"expression trees deeper than the shapes", "the real ClickHouse evaluator: grouping is read with its operator priorities as transcribed in harness/h/sqlparse.go, operators are uninterpreted functions (so the verdict holds for every data type), coalesce / IS NULL / CASE are interpreted"},
+		Stubs:   []string{tokStub},
+		Assume:  []string{"ClickHouse operator priority table as transcribed (trusted)", "value algebra axioms: isNull(NULL), TRUE/FALSE not null, truth(TRUE), not truth(FALSE)"},
+	})
 	seeds13 := func(n int64) []RunSpec {
 		var r []RunSpec
 		for i := int64(0); i < 20; i++ {
